@@ -5,7 +5,7 @@ import PtVerif.Proofs.ActivationUnique
 # C14 — activation equals the solution of the documented capture/decay chains
 
 Model: `PtVerif.Model.Activation` (`activityRow`, `activity`, `calcActivation`), the code of
-`periodictable/activation.py` **with `fixes/activation-burnup-expm1.patch` applied**, tied to the
+`periodictable/activation.py` **with `fixes/activation-1-burnup-expm1.patch` applied**, tied to the
 source on every run by `harness/ptv/props/C14.py` (translator for `activation.dat` and the
 constants; differential correspondence of the compiled model with `activity()` /
 `Sample.calculate_activation`; 60-digit chain-ODE oracle on the real code).
@@ -21,7 +21,8 @@ Clauses of the property and where they are:
   initial values; `activityRow` returns `λ·N(T)` of that solution); `act_solution_unique`,
   `b_solution_unique`, `twoN_solution_unique` (they are *the* solutions)
 * "never negative, never fail to compute for physical inputs": `nonneg_act`, `nonneg_b`,
-  `nonneg_2n`, and over the regenerated table `table_act_never_fails`, `table_b_never_fails`;
+  `nonneg_2n`, and over the regenerated table `table_act_never_fails`, `table_b_never_fails`,
+  `table_2n_never_fails_off_coincidence`;
   for `'2n'` rows only off the set where two of the three rates coincide
   (`never_fails_full` / `never_fails_partial` / `twoN_fails_at_coinciding_rates`)
 * "proportional to sample mass": `linear_in_mass`, `linear_in_mass_list`
@@ -173,11 +174,30 @@ theorem table_b_never_fails (r : DRow) (hr : r ∈ PtGen.ActivationDat.table) (h
     ∃ v, activityRow (PtGen.ActivationDat.consts) (r.toRow : Row ℝ) mass env T = .ok (some v) ∧ 0 ≤ v :=
   table_b_row r hr hb h
 
+/-- every `'2n'` row of activation.dat, every physical input at which the three rates are pairwise
+    different: omitted, or a value ≥ 0 -/
+theorem table_2n_never_fails_off_coincidence (r : DRow) (hr : r ∈ PtGen.ActivationDat.table)
+    (h2n : r.reaction = .twoN) {mass : ℝ} {env : Env ℝ} {T : ℝ} (h : PhysicalEnv mass env T)
+    (h12 : (rateB env (r.toRow : Row ℝ) + ratePlam (PtGen.ActivationDat.consts) (r.toRow : Row ℝ))
+      - rateA env (r.toRow : Row ℝ) ≠ 0)
+    (h13 : rateLam (PtGen.ActivationDat.consts) (r.toRow : Row ℝ) - rateA env (r.toRow : Row ℝ) ≠ 0)
+    (h23 : rateLam (PtGen.ActivationDat.consts) (r.toRow : Row ℝ)
+      - (rateB env (r.toRow : Row ℝ) + ratePlam (PtGen.ActivationDat.consts) (r.toRow : Row ℝ)) ≠ 0) :
+    activityRow (PtGen.ActivationDat.consts) (r.toRow : Row ℝ) mass env T = .ok none ∨
+    ∃ v, activityRow (PtGen.ActivationDat.consts) (r.toRow : Row ℝ) mass env T = .ok (some v) ∧ 0 ≤ v :=
+  table_2n_row r hr h2n h h12 h13 h23
+
 example : (∃ r ∈ PtGen.ActivationDat.table, r.reaction = .act) ∧
     (∃ r ∈ PtGen.ActivationDat.table, r.reaction = .b) ∧
     (∃ r ∈ PtGen.ActivationDat.table, r.reaction = .twoN) := by decide +kernel
 
 example : PhysicalEnv (1:ℝ) ⟨1e5, 70, 50⟩ 10 := by constructor <;> norm_num
+
+/-- non-vacuity of `nonneg_act`: the first row of the table (H-2 → H-3) in the doctest's environment -/
+example : Physical (PtGen.ActivationDat.consts)
+    ((⟨1, 2, false, .act, ⟨15, -3⟩, ⟨519, -6⟩, ⟨6298, -7⟩, ⟨10815096, -2⟩, ⟨0, 0⟩, ⟨0, 0⟩, ⟨0, 0⟩⟩ : DRow).toRow : Row ℝ)
+    1 ⟨1e5, 70, 50⟩ 10 :=
+  table_row_physical _ (by decide +kernel) (by constructor <;> norm_num)
 
 /-- the full clause: no row of the table raises for any physical input -/
 def never_fails_full : Prop :=
@@ -190,28 +210,28 @@ def never_fails_full : Prop :=
     and `nonneg_2n` apply. -/
 theorem never_fails_partial (r : DRow) (hr : r ∈ PtGen.ActivationDat.table) (hnot2n : r.reaction ≠ .twoN)
     (mass : ℝ) (env : Env ℝ) (T : ℝ) (h : PhysicalEnv mass env T) :
-    ∃ v, activityRow (PtGen.ActivationDat.consts) (r.toRow : Row ℝ) mass env T = .ok v := by
-  cases hk : r.reaction with
-  | act => rcases table_act_row r hr hk h with h1 | ⟨v, h1, _⟩ <;> exact ⟨_, h1⟩
-  | b => rcases table_b_row r hr hk h with h1 | ⟨v, h1, _⟩ <;> exact ⟨_, h1⟩
-  | twoN => exact absurd hk hnot2n
+    ∃ v, activityRow (PtGen.ActivationDat.consts) (r.toRow : Row ℝ) mass env T = .ok v :=
+  table_not_2n_row_ok r hr hnot2n mass env T h
+
+/-- a row used only by the non-vacuity example below -/
+noncomputable def exampleRow2n : Row ℝ :=
+  { z := 1, a := 2, fast := false, reaction := .twoN, abundance := 1, thermalXS := 7, resonance := 0,
+    thalf := 5, thalfParent := 3, thermalXSParent := 1, resonanceParent := 0 }
 
 /-- the error branch of the `'2n'` formula: when the target burns exactly as fast as the product
     decays the first denominator is 0 and Python raises ZeroDivisionError -/
 theorem twoN_fails_at_coinciding_rates (c : Consts ℝ) (r : Row ℝ) (mass : ℝ) (env : Env ℝ) (T : ℝ)
     (hr : r.reaction = .twoN) (hin : ¬ (r.fast = true ∧ env.fastRatio = 0)) (hth : r.thalf ≠ 0)
     (hthp : r.thalfParent ≠ 0) (hco : rateA env r = rateLam c r) :
-    activityRow c r mass env T = .error .zeroDivision := by
-  unfold activityRow
-  simp only [not_omitted hin, Bool.false_eq_true, if_false, hr]
-  have hth' : (r.thalf == 0) = false := by simpa using hth
-  have hthp' : (r.thalfParent == 0) = false := by simpa using hthp
-  simp only [hth', hthp', Bool.false_eq_true, if_false, l2_eq, pa_eq]
-  have d1 : (twoNDen1 (rateA env r) (rateB env r + ratePlam c r) (c.ln2 / r.thalf) == 0) = true := by
-    simp only [beq_iff_eq, twoNDen1]
-    have : c.ln2 / r.thalf - rateA env r = 0 := by rw [hco]; unfold rateLam; ring
-    rw [this, mul_zero]
-  simp only [d1, if_true]
+    activityRow c r mass env T = .error .zeroDivision :=
+  activityRow_2n_zeroDivision c r mass env T hr hin hth hthp hco
+
+/-- non-vacuity of `twoN_fails_at_coinciding_rates`: such an environment exists for a row with
+    positive cross section and half-life (fluence `λ/(σ·3600·10⁻²⁴)`, Cd ratio 0) -/
+example : rateA ⟨(Real.log 2 / 5) / (7 * 3.6e3 * 1e-24), 0, 0⟩ exampleRow2n = rateLam ⟨Real.log 2, 1⟩ exampleRow2n := by
+  simp only [rateA, rateLam, fluxOf, initialXS, epithermal, exampleRow2n]
+  norm_num
+  ring
 
 /-! ## proportional to the sample mass -/
 
@@ -312,6 +332,9 @@ theorem natural_is_abundance_weighted_sum (c : Consts ℝ) (rowsOf : Nat → Nat
     ∃ tally, calcActivation c rowsOf mass env T rests [naturalPart frac z isos] = .ok tally ∧
       ∀ k, lookR tally.removal k = (isos.map fun ia => ia.2 * 0.01 * headSum (pure ia.1) k).sum :=
   natural_is_weighted_sum c rowsOf mass frac env T rests z isos hm hab pure hpure
+
+example (c : Consts ℝ) (rowsOf : Nat → Nat → List (Nat × Row ℝ)) (mass : ℝ) (env : Env ℝ) (T : ℝ) :
+    calcActivation c rowsOf mass env T [0, 24] [] = .ok {} := rfl
 
 /-! ## the tabulated data and the constants (regenerated from the source on every run) -/
 
